@@ -1423,6 +1423,22 @@ impl World {
         }
     }
 
+    /// Let every connection emit what its last API calls queued (events, endpoint events,
+    /// transmits) without delivering anything and without advancing time.
+    pub fn flush_now(&mut self) {
+        for _ in 0..64 {
+            let mut progress = false;
+            let keys: Vec<(usize, usize)> = self.eps.iter().enumerate().flat_map(|(ei, e)| e.conns.keys().map(move |k| (ei, *k))).collect();
+            for (ei, ch) in keys {
+                progress |= self.drain_events(ei, ch);
+                progress |= self.flush_conn(ei, ch);
+            }
+            if !progress {
+                break;
+            }
+        }
+    }
+
     pub fn run(&mut self, max_steps: u64, max_ns: u64, mut done: impl FnMut(&World) -> bool) -> RunEnd {
         let start = self.steps;
         loop {
